@@ -618,6 +618,17 @@ def schedules(rng, s: bytes, n_random=3, max_all=0):
         k = rng.randint(1, 5)
         out.append(cut(s, [rng.randint(1, len(s) - 1) for _ in range(k)]))
     out.append(cut(s, [rng.randint(1, len(s) - 1)]))
+    # deliveries without a byte: at the start, between two others, twice in a row, at the end (a call without input changes
+    # nothing -- twelfth round: a body collected so far lost, a trailer taken as finished)
+    pts = sorted(set([rng.randint(1, len(s) - 1) for _ in range(2)] + ([cc[-1]] if cc else []) + [len(s) - 1]))
+    pieces = cut(s, pts)
+    withempty = []
+    for i2, pc in enumerate(pieces):
+        withempty.append(pc)
+        withempty.append(b"")
+        if i2 % 2:
+            withempty.append(b"")
+    out.append(([b""] if rng.chance(1, 2) else []) + withempty)
     # one cut in the middle of a line (state kept while a line is incomplete must not leak into later lines)
     mids = line_mid_cuts(s)
     if mids:
